@@ -377,6 +377,12 @@ fn case_wdec(out: &mut Out, chunks: Vec<Vec<u8>>, expect: Option<&[Frame]>, tag:
             if m.is_ok() && whole.len() >= 9 && u64::from_be_bytes(whole[..8].try_into().unwrap()) > MAX as u64 {
                 if items.first() != Some(&Item::E("payload-too-large".into())) { m = Err("length prefix above 1 MiB was not refused".into()); }
             }
+            // … and never yields a frame whose payload is larger than the limit, wherever it stands in the stream
+            if m.is_ok() {
+                for i in &items {
+                    if let Item::F(f) = i { if f.get_length().map(|l| l as usize > MAX).unwrap_or(false) { m = Err("the decoder yielded a frame with a payload above 1 MiB".into()); } }
+                }
+            }
             for i in &items { out.stat(match i { Item::F(_) => "wdec_items_frame", Item::E(_) => "wdec_items_error" }); }
             (items_text(&items), m)
         }
@@ -483,6 +489,26 @@ pub fn run(cfg: &Cfg) {
             w.extend(std::iter::repeat(0u8).take(extra));
             case_wdec(&mut out, vec![w.clone()], None, "oversize_prefix");
             case_wdec(&mut out, w.iter().map(|b| vec![*b]).collect(), None, "oversize_prefix");
+        }
+    }
+    // complete oversize frames: the whole declared payload is present and would parse if the limit were not
+    // enforced — alone, behind a valid frame, and cut in two (the refusal must not depend on how much has arrived)
+    for len in [MAX + 1, MAX + 9, 2 * MAX] {
+        for ty in [5u8, 4] {
+            let mut w = (len as u64).to_be_bytes().to_vec();
+            w.push(ty);
+            if ty == 4 {
+                // bincode MessagePayload { headers: None, message: <len-9 bytes> }
+                w.push(0);
+                w.extend(((len - 9) as u64).to_le_bytes());
+                w.extend(std::iter::repeat(0u8).take(len - 9));
+            } else {
+                w.extend(std::iter::repeat(0u8).take(len));
+            }
+            case_wdec(&mut out, vec![w.clone()], None, "oversize_complete");
+            case_wdec(&mut out, vec![w[..9 + 100].to_vec(), w[9 + 100..].to_vec()], None, "oversize_complete");
+            let ok = enc_ok(&Frame::Ok);
+            case_wdec(&mut out, vec![[ok.clone(), w.clone()].concat()], None, "oversize_complete");
         }
     }
     // --- decode: sequences of valid frames under several chunkings
